@@ -36,7 +36,7 @@ MANIFEST = {
             "check off (documented user option).",
     "technique": "semantic pattern matching of guard-and-raise obligations "
                  "over MRO-resolved methods + CFG dominance + sibling "
-                 "cross-check + MRO-resolved constant tuples",
+                 "cross-check + MRO-resolved constant tuples + refusal-weakening check against the reviewed guard snapshot",
 }
 
 # class -> list of requirements
